@@ -3037,8 +3037,21 @@ impl<'de, 'e> de::Deserializer<'de> for YamlDeserializer<'de, 'e> {
         impl<'de> de::VariantAccess<'de> for TaggedVA<'de> {
             type Error = Error;
 
-            fn unit_variant(self) -> Result<(), Error> {
-                Ok(())
+            fn unit_variant(mut self) -> Result<(), Error> {
+                // `!Variant` with nothing (or a null) after it; any other payload is a value where
+                // a unit is expected, as in the mapping notation `{Variant: payload}`.
+                match self.replay.peek()? {
+                    None => Ok(()),
+                    Some(Ev::Scalar {
+                        value: s, style, ..
+                    }) if scalar_is_nullish(s, style) => {
+                        let _ = self.replay.next()?;
+                        self.expect_payload_consumed()
+                    }
+                    Some(other) => Err(Error::UnexpectedValueForUnitEnumVariant {
+                        location: other.location(),
+                    }),
+                }
             }
 
             fn newtype_variant_seed<T>(mut self, seed: T) -> Result<T::Value, Error>
